@@ -185,7 +185,7 @@ def _tail(stmts, make):
                 return out, True
             if bt and not et:
                 e2, t2 = _tail(list(s.orelse) + rest, make)
-                out.append(ast.copy_location(ast.If(test=s.test, body=b, orelse=e2), s))
+                out.append(ast.copy_location(ast.If(test=s.test, body=b or [ast.Pass()], orelse=e2), s))
                 return out, t2
             if et and not bt:
                 b2, t2 = _tail(list(s.body) + rest, make)
@@ -196,6 +196,20 @@ def _tail(stmts, make):
             b, bt = _tail(s.body, make)
             out.append(ast.copy_location(ast.With(items=s.items, body=b), s))
             return out, bt
+        if isinstance(s, ast.Try) and not rest and not s.orelse and not _contains_return(s.finalbody):
+            # try in tail position whose body and every handler end in return / raise: `return e` inside the protected
+            # region becomes the binding inside the same protected region (binding a name cannot raise)
+            b, bt = _tail(s.body, make)
+            hs = []
+            for h in s.handlers:
+                hb, ht = _tail(h.body, make)
+                if not ht:
+                    raise NotInlinable('except handler that falls through in a try containing return')
+                hs.append(ast.copy_location(ast.ExceptHandler(type=h.type, name=h.name, body=hb or [ast.Pass()]), h))
+            if not bt:
+                raise NotInlinable('try body that falls through in a try containing return')
+            out.append(ast.copy_location(ast.Try(body=b or [ast.Pass()], handlers=hs, orelse=[], finalbody=s.finalbody), s))
+            return out, True
         raise NotInlinable(f'return inside {type(s).__name__}')
     return out, False
 
